@@ -215,6 +215,8 @@ NOSAN static void raw_zero(void *dst, size_t n) {
   asm volatile("rep stosb" : "+D"(dst), "+c"(n) : "a"(0) : "memory");
 }
 
+void coro_raw_copy(void *dst, const void *src, size_t n) { raw_copy(dst, src, n); }
+
 static inline uint8_t *shadow_of(const void *p) {
   return (uint8_t *) (((uintptr_t) p >> 3) + 0x7fff8000ull);
 }
